@@ -418,13 +418,14 @@ func (l *LockServer) DestroySession(ctx context.Context) (sessionId string) {
 	// Locks that are not cleared on disconnect outlive their session. Keep the session's entry while
 	// it holds any, so that they stay listed and stay in the state file until they are unlocked
 	// or expire.
-	if l.noClearOnDisconnect && len(l.sessionMgr.Locks()[sessionId]) > 0 {
+	if l.noClearOnDisconnect {
+		l.sessionMgr.DestroySessionIfEmpty(sessionId)
 		return
 	}
 
 	locks := l.sessionMgr.DestroySession(sessionId)
 
-	if l.noClearOnDisconnect || len(locks) == 0 {
+	if len(locks) == 0 {
 		return
 	}
 
